@@ -20,6 +20,15 @@ CLAIMED["C16"] = ("5/C16",
    "Not covered: node.go (push/split/pull/merge), equivalence with a sorted map over operation sequences, fan-out settings. Trusted: go/ssa, node.go helpers.",
    "SSA origin-term rules: return-value formulas under dominating nil-tests, phi-edge case analysis")
 
+CLAIMED["C15"] = ("5/C15",
+   "Static rules over osmoutils/accum decide: the claimable formula unclaimed + (value - snapshot) x shares; every share mutation folds accrued rewards into the record, writes old +/- delta shares under the same name, and updates the re-read accumulator total by the same delta with the same sign before persisting; failure guards (non-positive delta, remove > held, zero update, unknown position, negative rewards) precede all writes; claim resets or deletes exactly the claimer and truncates only via TruncateDecimal; the writers of position and accumulator records are the listed mutators.",
+   "Not covered: claim = sum of growth x shares over a history, total shares = sum of positions over histories (numeric/history clauses). Trusted: go/ssa, osmoutils store helpers, KV store.",
+   "SSA origin-term / guard / order / who-may-call rules")
+CLAIMED["C17"] = ("5/C17",
+   "Static rules decide: the per-timer BeginBlocker callback is loop-free (at most one tick per block), ticks only under BlockTime > epoch end or not-started and never before StartTime, sets the new start to StartTime or previous start + duration (never block time), signals end-of-epoch n before the increment, persists, then signals start n+1; every subscriber runs through applyFunc on the cache context whose write() is reachable only on the nil-error edge; the recover handler re-panics exactly for the two out-of-gas error types and otherwise sets an error; the subscriber loops have no early exit and the app wires the containing multi-hook.",
+   "Not covered: 'exactly once' over block-time sequences as a trace property; grid arithmetic over histories. Trusted: sdk.Context.CacheContext isolation, go/ssa.",
+   "SSA guard-disjunct (phi-expanded) dominance rules, cache-context containment, loop/CFG shape rules")
+
 NOT_YET = "check not built yet in this revision (static rule set under construction; see DESIGN.md section 5)"
 
 def main():
